@@ -94,8 +94,8 @@ pub fn path_responses(p1: u64, t1: u64, port1: u16, p2: u64, t2: u64, port2: u16
     let addr = |port: u16| SocketAddr::new(std::net::IpAddr::V4(std::net::Ipv4Addr::new(10, 0, 0, 1)), port);
     let mut r = PathResponses::default();
     assert!(r.is_empty());
-    r.push(p1, t1, addr(port1));
-    r.push(p2, t2, addr(port2));
+    r.push(p1, t1, addr(port1), 1200);
+    r.push(p2, t2, addr(port2), 40);
     let mut f = 1;
     if port1 == port2 {
         assert!(r.pending.len() == 1);
@@ -115,7 +115,9 @@ pub fn path_responses(p1: u64, t1: u64, port1: u16, p2: u64, t2: u64, port2: u16
     } else {
         assert!(on.is_none());
         let off = r.pop_off_path(addr(on_port));
-        assert!(off == Some((last.token, last.remote)));
+        // the response comes with the size of the packet that carried ITS challenge
+        assert!(off == Some((last.token, last.remote, last.received)));
+        assert!(last.received == if last.token == t2 && (port1 != port2 || p1 <= p2) { 40 } else { 1200 } || t1 == t2);
         assert!(r.pending.len() == n0 - 1);
         f |= 8;
     }
